@@ -78,6 +78,11 @@ func (m *Model) Update(msg vaxis.Event)
   loop 5 invariant C17_seps: forall t in m.cursor..originalCursor: !alnumC(m.content[t])
   loop 6 invariant C17_word: WordThenSeps(m, m.cursor, originalCursor)
        && (m.cursor == 0 || alnumC(m.content[m.cursor - 1]) || (m.cursor < originalCursor && alnumC(m.content[m.cursor])))
+  -- the end of a bracketed paste inserts the pasted clusters at the cursor and moves the cursor past exactly them
+  ensures C17_paste: typeis(msg, "vaxis.PasteEndEvent") ==>
+        (m.cursor - old(m.cursor) == len(m.content) - old(len(m.content)) && m.cursor >= old(m.cursor) && len(m.paste) == 0
+         && (forall k in 0..old(m.cursor): m.content[k] == old(m.content[k]))
+         && (forall d in m.cursor - old(m.cursor)..m.cursor - old(m.cursor) + 1: forall k in m.cursor..len(m.content): m.content[k] == oldat(m.content, k - d)))
   ensures C17_killword: (KeyIs(msg, "Ctrl+w") && old(m.cursor) > 0) ==>
         (m.cursor <= old(m.cursor) && len(m.content) == old(len(m.content)) - (old(m.cursor) - m.cursor)
          && (forall k in 0..m.cursor: m.content[k] == old(m.content[k]))
